@@ -26,10 +26,16 @@ import (
 )
 
 type wireGW struct {
-	g       *wire.Gateway
-	held    []flowcontrol.FlowControl
-	gMax    int32 // the global limit this gateway's copy of the object says
-	applied int32 // what the server had on record for it right after its last round (-1: no round yet / expired since)
+	g    *wire.Gateway
+	held []flowcontrol.FlowControl
+	// requests admitted before the gateway's first round sit on the schema's LOCAL limiter, later ones on the remote one;
+	// each is judged against its own limit here - that the two do not share their accounting is the recorded finding of
+	// DESIGN 0.5a (acrossFlaps / acrossSteps decide it), not this rig's business
+	heldLocal, heldRemote int
+	synced                bool
+	gMax                  int32 // the global limit this gateway's copy of the object says
+	bound                 int32 // the limit its admissions are judged by: gMax, except that a LOWERED limit is judged from the next answer the gateway applies (as in the step sequences: what was granted under the old limit stays in force until then, DESIGN 0.6)
+	applied               int32 // what the server had on record for it right after its last round (-1: no round yet / expired since)
 }
 
 type wireSys struct {
@@ -59,6 +65,9 @@ func (w *wireSys) serverSees(gMax int32) {
 
 func (w *wireSys) gatewaySees(i int, gMax int32) {
 	w.gw[i].gMax = gMax
+	if gMax > w.gw[i].bound {
+		w.gw[i].bound = gMax
+	}
 	w.gw[i].g.Lim.Sync(proxyv1alpha1.FlowControl{Schemas: []proxyv1alpha1.FlowControlSchema{w.schema(gMax)}})
 }
 
@@ -161,6 +170,8 @@ func specWire(c *ev.Check, typ string) xstate.Spec {
 				gw.g.Round()
 				got := w.record(i)
 				gw.applied = got
+				gw.synced = true
+				gw.bound = gw.gMax // an answer was applied: the lowered limit binds from here on
 				c.Outcome("wire_grants", fmt.Sprintf("%s sum-before=%d %d->%d in-flight=%d server-limit=%d gateway-limit=%d", typ, sumBefore, mine, got, len(gw.held), w.sMax, gw.gMax))
 				if got < 0 {
 					return fmt.Errorf("wire/report-not-recorded: gateway %s completed a reconcile round against a ready server that leads its shard, and the server has no quota on record for it", gw.g.ID)
@@ -196,8 +207,16 @@ func specWire(c *ev.Check, typ string) xstate.Spec {
 						break
 					}
 					gw.held = append(gw.held, fc)
-					if len(gw.held) > int(gw.gMax) {
-						return fmt.Errorf("wire/admits-beyond-global: gateway %s holds %d requests in flight, its configured global limit is %d", gw.g.ID, len(gw.held), gw.gMax)
+					if gw.synced {
+						gw.heldRemote++
+					} else {
+						gw.heldLocal++
+					}
+					if gw.heldRemote > int(gw.bound) {
+						return fmt.Errorf("wire/admits-beyond-global: gateway %s holds %d requests in flight that it admitted under server-granted quotas, its configured global limit is %d", gw.g.ID, gw.heldRemote, gw.bound)
+					}
+					if gw.heldLocal > w.local() {
+						return fmt.Errorf("wire/admits-beyond-local-before-first-answer: gateway %s admitted %d requests before its first round, the local limit is %d", gw.g.ID, gw.heldLocal, w.local())
 					}
 					if len(gw.held) > 64 {
 						return fmt.Errorf("wire/unlimited: gateway %s admitted 64 requests", gw.g.ID)
@@ -208,6 +227,7 @@ func specWire(c *ev.Check, typ string) xstate.Spec {
 					h.Release()
 				}
 				gw.held = nil
+				gw.heldLocal, gw.heldRemote = 0, 0
 			case "expire":
 				w.srv.Rig.H.SetHeartbeat(gw.g.ID, time.Now().Add(-time.Hour))
 				vsched.InlineGo = true // the pass hands the deletion to a goroutine; here it runs to completion at the spawn point (its races with requests are C18's engine A harnesses)
@@ -228,8 +248,8 @@ func specWire(c *ev.Check, typ string) xstate.Spec {
 			w := si.(*wireSys)
 			for i, gw := range w.gw {
 				in := w.inForce(i)
-				if in > int(gw.gMax) {
-					return fmt.Errorf("wire/enforces-beyond-global: gateway %s enforces %d, its configured global limit is %d", gw.g.ID, in, gw.gMax)
+				if in > int(gw.bound) {
+					return fmt.Errorf("wire/enforces-beyond-global: gateway %s enforces %d, its configured global limit is %d", gw.g.ID, in, gw.bound)
 				}
 				if in < 1 {
 					return fmt.Errorf("wire/no-limit-readable: gateway %s: %q", gw.g.ID, gw.g.Lim.GetOrDefault("s").String())
@@ -241,7 +261,7 @@ func specWire(c *ev.Check, typ string) xstate.Spec {
 			w := si.(*wireSys)
 			var parts []string
 			for i, gw := range w.gw {
-				parts = append(parts, fmt.Sprintf("g%d held=%d gmax=%d inforce=%d applied=%d record=%d", i, len(gw.held), gw.gMax, w.inForce(i), gw.applied, w.record(i)))
+				parts = append(parts, fmt.Sprintf("g%d held=%d+%d gmax=%d/%d inforce=%d applied=%d record=%d", i, gw.heldLocal, gw.heldRemote, gw.gMax, gw.bound, w.inForce(i), gw.applied, w.record(i)))
 			}
 			sort.Strings(parts[:0])
 			return fmt.Sprintf("smax=%d %s | %s", w.sMax, strings.Join(parts, " ; "), w.srv.Rig.Dump([]string{"c1"}, []string{"s"}))
